@@ -42,6 +42,7 @@ int main(void)
     VR_ASSERT(G.huge_page_size >= 4096, "huge page size >= 4096");
     VR_ASSERT(pow2(G.mem_page_size) && G.mem_page_size >= 4096, "memory-pool page size is a power of two >= 4096");
     VR_ASSERT(G.mem_sp_size % ABT_CONFIG_STATIC_CACHELINE_SIZE == 0 && G.mem_sp_size != 0, "stack page size is a non-zero multiple of the cache line");
+    VR_ASSERT(G.mem_sp_size >= (G.thread_stacksize <= (SIZE_MAX / 2) / 4 ? G.thread_stacksize * 4 : SIZE_MAX / 2), "a stack page holds at least four default stacks (documented minimum), whatever the variable was set to -- parsable or not");
     VR_ASSERT(G.mem_max_stacks >= ABT_MEM_POOL_MAX_LOCAL_BUCKETS && G.mem_max_stacks % ABT_MEM_POOL_MAX_LOCAL_BUCKETS == 0, "max cached stacks: non-zero multiple of the local bucket count (a bucket holds >= 1 block)");
     VR_ASSERT(G.mem_max_descs >= ABT_MEM_POOL_MAX_LOCAL_BUCKETS && G.mem_max_descs % ABT_MEM_POOL_MAX_LOCAL_BUCKETS == 0, "max cached descriptors: non-zero multiple of the local bucket count");
     VR_ASSERT(G.stack_guard_kind == ABTI_STACK_GUARD_NONE || G.stack_guard_kind == ABTI_STACK_GUARD_MPROTECT || G.stack_guard_kind == ABTI_STACK_GUARD_MPROTECT_STRICT, "stack guard kind is one of the three modes");
